@@ -38,6 +38,23 @@ def parseF : Nat → Bytes → List Item × Tail
 
 def parse (b : Bytes) : List Item × Tail := parseF (b.length + 1) b
 
+/-! ### the envelope encoding (what a sender writes): `parse` inverts it (`Props.C14.parse_encode`) -/
+
+/-- big-endian bytes of a `uint32` -/
+def be32enc (n : Nat) : Bytes :=
+  [UInt8.ofNat (n / 16777216 % 256), UInt8.ofNat (n / 65536 % 256), UInt8.ofNat (n / 256 % 256), UInt8.ofNat (n % 256)]
+
+/-- the five prefix bytes of an envelope -/
+def prefixOf (e : Env) : Bytes := e.flags :: be32enc e.len
+
+def encodeItem (it : Item) : Bytes := prefixOf it.env ++ it.payload
+
+/-- a sequence of enveloped messages on the wire -/
+def encode (items : List Item) : Bytes := items.flatMap encodeItem
+
+/-- the declared length is the payload's length and fits the four length bytes -/
+def Item.wf (it : Item) : Prop := it.payload.length = it.env.len ∧ it.env.len < 2 ^ 32
+
 /-- events of one complete message: a data event with the exact flags and declared length;
 on the response side an end-stream message (flags ∩ 0x82 ≠ 0) with a non-empty payload is
 followed by its content — decompressed iff the compressed flag (bit 0) is set, raw otherwise;
